@@ -32,7 +32,7 @@ ENVS = {
     "silent": ["A:4037", "A:10037", "A:10037", "A:21037", "A:21037", "A:41037", "A:41037", "A:41037"],
     # the controller keeps broadcasting sensor data whose frame-version table says "version 0" for two request kinds and never
     # answers those requests: an unchanged table must not queue anything again (else the queue grows for ever)
-    "bcast": ["A:1037", "F:v:2:0"] * 70,
+    "bcast": ["A:1037", "F:v:2:0"] * 220,
 }
 
 
